@@ -107,7 +107,7 @@ func runFull(cfg *vh.Config, res *vh.Result, caseNo *int, texts []string, how []
 	}
 	var idx []int
 	for i, src := range texts {
-		if len(src) <= 2500 && !strings.HasPrefix(how[i], "j5sgen") {
+		if len(src) <= 1800 && !strings.HasPrefix(how[i], "j5sgen") {
 			idx = append(idx, i)
 		}
 	}
@@ -142,7 +142,10 @@ func runFull(cfg *vh.Config, res *vh.Result, caseNo *int, texts []string, how []
 		} else if conv {
 			res.Count("full_conversion_error")
 		} else {
+			// parser / walker / loader stage: the walker stream compares those outcomes exactly
 			res.Count("full_other_error")
+			*caseNo++
+			continue
 		}
 		terms = append(terms, fmt.Sprintf("CFull %s %s %s %s", vh.BytesTerm(texts[i]), b(accepted), b(conv), spansCoq(sp)))
 		recs = append(recs, vh.CaseRec{Case: *caseNo, Stream: "full", Input: in, Impl: map[string]any{"accepted": accepted, "conversion_stage": conv, "positions": sp}})
@@ -163,7 +166,7 @@ func runWalk(cfg *vh.Config, res *vh.Result, caseNo *int, texts []string, how []
 		switch {
 		case o.Panic != "":
 			res.Fail(vh.Failure{Case: *caseNo, Stream: "walk", Sig: "C07 front end (parse + walk): panic " + errClass(o.Panic), Clause: "never panics", Input: in, Got: o.Panic})
-		case len(src) > 2500:
+		case len(src) > 1800:
 			res.Count("walk_skipped_long")
 		case o.HasFile:
 			res.Count("walk_file")
@@ -183,10 +186,11 @@ func runWalk(cfg *vh.Config, res *vh.Result, caseNo *int, texts []string, how []
 				break
 			}
 			if o.FromParser {
+				// the parser's diagnostics are compared one by one by the front stream (CFrontErrs)
 				res.Count("walk_err_parser")
-			} else {
-				res.Count("walk_err_walker")
+				break
 			}
+			res.Count("walk_err_walker")
 			terms = append(terms, fmt.Sprintf("CWalk %s (WObsErrs %s %s)", vh.BytesTerm(src), b(o.FromParser), spansCoq(sp)))
 			recs = append(recs, vh.CaseRec{Case: *caseNo, Stream: "walk", Input: in, Impl: map[string]any{"from_parser": o.FromParser, "errors": o.ErrPos}})
 		}
